@@ -184,6 +184,7 @@ fn main() {
             "iter" => search_scan(&mut rng, budget, "iter"),
             "chunks" => search_chunks(&mut rng, budget),
             "corrupt" => search_corrupt(&mut rng, budget),
+            "msmperm" => match msgs::msm_perm_search(&mut rng, budget.min(20000)) { Ok(n) => n, Err((p, why)) => found("msmperm", &p, &[], &why, 0) },
             "builder" => match msgs::builder_search(&mut rng, budget.min(4000)) { Ok(n) => n, Err((p, why)) => found("builder", &p, &[], &why, 0) },
             "classify" => match msgs::classify_search(&mut rng) { Ok(n) => n, Err((p, why)) => found("classify", &p, &[], &why, 0) },
             "msgs" => match msgs::search(&mut rng, budget) { Ok(n) => n, Err((p, why)) => found("msgs", &p, &[], &why, 0) },
@@ -242,6 +243,7 @@ fn main() {
             "iter" => l3::check_iter(&inp),
             "chunks" => l3::check_chunks(&inp, &cuts),
             "msgs" => msgs::check_payload(&inp),
+            "msmperm" => { let mut rng = Rng(0x1234567); msgs::msm_perm_search(&mut rng, 5000).err().map(|e| e.1) }
             "builder" => { let mut rng = Rng(0x1234567); msgs::builder_search(&mut rng, 2000).err().map(|e| e.1) }
             "classify" => { let mut rng = Rng(0x1234567); msgs::classify_search(&mut rng).err().map(|e| e.1) }
             "corrupt" => { use rtcm_rs::prelude::*; if MessageFrame::new(&inp).is_ok() || next_msg_frame(&inp).1.is_some() { Some("corrupted frame accepted/delivered".to_string()) } else { None } }
